@@ -24,6 +24,15 @@ def index_variants(rng, idx):
   if idx.max() < 127:
     out.append(('int8', idx.astype(np.int8)))
     out.append(('uint8', idx.astype(np.uint8)))
+  # memory layouts of the index array itself: column-major, strided view, transposed stack of columns
+  if idx.ndim == 2:
+    big = np.zeros((2 * idx.shape[0], 2 * idx.shape[1]), dtype=idx.dtype)
+    big[::2, ::2] = idx
+    out.append(('fortran', np.asfortranarray(idx)))
+    out.append(('strided', big[::2, ::2]))
+    out.append(('columns_T', np.array([idx[:, j] for j in range(idx.shape[1])]).T))
+  else:
+    out.append(('strided', np.repeat(idx, 2)[::2]))
   return out
 
 
@@ -168,7 +177,7 @@ def run(ctx):
   rng = ctx.rng
   ctx.rule = ("17 estimators x every data-taking method (fit, transform, pair_distance, pair_score, predict, "
               "decision_function, score, calibrate_threshold) x preprocessor in {ndarray, nested list, callable} x index "
-              "arrays with repeats, arbitrary order, dtypes int8/uint8/int32/int64/list, the preprocessor holding float64 data and "
+              "arrays with repeats, arbitrary order, dtypes int8/uint8/int32/int64/list, index arrays in C / Fortran / strided / transposed layout, the preprocessor holding float64 data and "
               "the same run again with integer-valued data held as uint8/int16/uint16/int64: fitted model (components_, threshold_) "
               "and outputs must be bit-identical to the call on formed data; a counting callable must not be consulted for "
               "formed data; a raising callable must surface as PreprocessorError.  distinct = distinct (estimator, method, "
